@@ -10,7 +10,8 @@ the retained band, and zero outside it" — 1-D core, about `Model/Nonlin.lean` 
   * `AliasConv`   : A1 `dft_mul` (circular convolution), A2 `dft_mul3`, A3 `BandLimited`,
                     `dft_mul_no_alias(')`, `dft_mul3_no_alias(')`, `band_no_alias_quadratic/cubic`,
                     trigonometric-polynomial interpretation (`sum_trunc_conv_eq_mul`, `bandLimited_grid`)
-  * `AliasMask`   : A4 `mask_one_eq`, `mask_one`, `Kc`, `Kc_two_thirds`, `Kc_half`, `Kc_two_lt`;
+  * `AliasMask`   : A4 `mask_one_eq`, `mask_one`, `Kc`, `Kc_two_thirds`, `Kc_half`, `Kc_two_lt`,
+                    `Kc_mono`, `Kc_of_effective` (effective / float-derived fractions);
                     A5 `dft_irfft`, `nifft_bandLimited`, `dft_nifft_band`, `dft_nifft_rfft(_off)`
   * `AliasNonlin` : A6 `convection_one_readoff`, `convection_one_alias_free(')`;
                     A7 `polynomial_quadratic_alias_free`, `polynomial_cubic_alias_free`,
